@@ -417,6 +417,8 @@ func Run(r *vh.Run) {
 			sched = append(sched, t.PathFromRoot(leaves[trng.Intn(len(leaves))]))
 			RunTree(r, trng, fmt.Sprintf("tree%d/pruned", i), t, sched)
 		}
+		// a node that starts from a checkpoint instead of genesis
+		runCheckpoint(r, trng, fmt.Sprintf("tree%d/checkpoint", i), t)
 		// a store whose Flush fails in the middle of a submission
 		if i%2 == 0 {
 			RunTree(r, trng, fmt.Sprintf("tree%d/flushfail", i), t, t.Schedule(trng))
